@@ -178,6 +178,12 @@ def run(tier='quick'):
                         'inserts the new position into, on every path (also when the crate becomes a root)',
                   floor=1)
     old_position_removed(prog, cg, eff, chk, T7)
+    T9 = chk.rule('T9', 'the tables that carry the crate forest are created as the reference dump of the version '
+                        'defines them - in particular the id column of the 2.x Playlist table is AUTOINCREMENT, so '
+                        'the id of a removed crate is never handed out again', floor=20)
+    from . import c08 as _c08
+    _c08.tables_match_reference(prog, chk, T9, ('Playlist', 'Crate', 'CrateParentList', 'CrateHierarchy', 'List',
+                                                'ListParentList', 'ListHierarchy'))
     T8 = chk.rule('T8', '1.x: every operation that adds or moves a crate writes the parent list and the full '
                         'closure (ancestors of the parent x crate), which descendants() and the cycle guard read',
                   floor=5)
